@@ -317,8 +317,7 @@ def run_o2(case):
                     v("o2-deadlock", f"threads deadlocked: {s.deadlock}", {"ordering": name, "flavor": flavor})
                 judge(name, S, waiters, box["t_start"], results, pool_counts(box["pool"]))
         # zero timeout, free capacity
-        s_ = None
-        from ..world import sync_env
+        from ..world import sync_env, sync_env_restore
         sync_env(None)
         try:
             net, pool, api = build()
@@ -328,9 +327,7 @@ def run_o2(case):
             except Exception as exc:  # noqa
                 v("o2-zero-pool-timeout-fails-with-free-capacity", repr(exc), {"flavor": flavor})
         finally:
-            runners.unpatch_time()
-            simnet.ENV["now"] = None
-            simnet.ENV["sched"] = None
+            sync_env_restore()
     return {"viol": viol, "counters": cnt, "sigs": sorted(sigs), "sample": sample or None}
 
 
